@@ -10,7 +10,7 @@ import sys
 
 HERE = os.path.dirname(os.path.dirname(os.path.abspath(__file__)))
 sys.path.insert(0, os.path.join(HERE, "sa"))
-PIDS = "C01 C02 C03 C04 C05 C06 C07 C08 C09 C11 C13 C14 C15 C16 C17 C18 C19 C20".split()
+PIDS = "C01 C02 C03 C04 C05 C06 C07 C08 C09 C10 C11 C12 C13 C14 C15 C16 C17 C18 C19 C20".split()
 NOT = json.load(open(os.path.join(HERE, "tools", "not_decided.json")))
 
 
